@@ -105,8 +105,19 @@ def helper_templates(rng):
     dec = Func("dec", [(INT, "n")], INT, Block([ExprStmt(Assign("=", n, B("-", n, I(1)))), ExprStmt(Assign("=", gi, B("+", gi, n))), Return(n)]), False)
     cnt = Func("cnt", [(INT, "n"), (FLOAT, "x")], FLOAT, Block([ExprStmt(Assign("+=", n, I(2))), ExprStmt(Assign("=", x, B("*", x, F(0.5)))),
                                                               Return(B("+", B("*", n, F(10.0)), x))]), False)
-    helpers = [h_put, h_swz, h_row, h_scl, inner, mid, outer, bumpg, viab, dec, cnt]
+    # recursion: a local and a temporary set before the recursive call and read after it (every activation has its own)
+    rs = Func("rs", [(INT, "n")], INT, None, False)
+    rs.body = Block([If(B("<=", n, I(0)), Block([Return(I(0))])), Decl(INT, "k", B("*", n, I(2))), Decl(INT, "r", Call("rs", [B("-", n, I(1))], INT, rs)),
+                     ExprStmt(Assign("=", gi, B("+", gi, V("k", INT)))), Return(B("+", B("+", V("r", INT), V("k", INT)), B("*", n, I(100))))])
+    F4 = vec(FLOAT, 4)
+    helpers = [h_put, h_swz, h_row, h_scl, inner, mid, outer, bumpg, viab, dec, cnt, rs]
     exported = [
+        fn("recur", [(INT, "n")], INT, [Return(Call("rs", [B("%", B("*", n, n), I(5))], INT, rs))]),
+        # a wider vector built from a vector variable plus scalars: the variable it starts from stays what it was
+        fn("widen_g", [(FLOAT, "x")], FLOAT, [Decl(F4, "w", Construct(F4, [gv, x])), Return(B("+", Swizzle(V("w", F4), "x"), Swizzle(V("w", F4), "w")))]),
+        fn("widen_p", [(F3, "v"), (FLOAT, "x")], F4, [Return(Construct(F4, [v, x]))]),
+        fn("widen_l", [(FLOAT, "x")], F3, [Decl(F2, "l", Construct(F2, [x, gf])), Decl(F3, "w", Construct(F3, [V("l", F2), x])),
+                                           Return(B("+", V("w", F3), Construct(F3, [V("l", F2), F(1.0)])))]),
         fn("advance", [], INT, [Return(B("+", B("*", Call("dec", [I(3)], INT, dec), I(1000)), gi))]),
         fn("lit_call", [(INT, "n")], FLOAT, [Return(B("+", B("+", Call("cnt", [I(3), F(8.0)], FLOAT, cnt), Call("cnt", [I(3), F(8.0)], FLOAT, cnt)), n))]),
         # store to a global, a call that changes the same global, the global read again — all in one straight line
